@@ -35,7 +35,7 @@ MANDATORY = ["sort_axis", "sort_axis:key", "sort_axis:dict", "take_axis:label", 
 
 
 def budget(tier):
-    return {"quick": dict(examples=1000, shards=1), "thorough": dict(examples=15000, shards=16)}[tier]
+    return {"quick": dict(examples=3000, shards=1), "thorough": dict(examples=15000, shards=16)}[tier]
 
 
 OPS = ["sort_axis", "take_axis", "compress_axis", "compress", "dropna", "fillna", "setna"]
